@@ -33,6 +33,9 @@ class MpStudyEngine(EngineBase):
 
     def prepare(self, tier):
         self.M = importlib.import_module(MODNAME)
+        # a simulated kill abandons half-written zip archives; their finalisers complain on stderr when collected
+        import sys
+        sys.unraisablehook = lambda unraisable: None
         import dill  # noqa: F401
         # warm up find_nearest (numba) before forking
         from TidalPy.utilities.numpy_helper.array_other import find_nearest
